@@ -311,18 +311,56 @@ fn digest(data: &[u8]) -> String {
     format!("{}:{}", data.len(), sha256_hex(data))
 }
 
+fn ca_repo() -> uri::Rsync {
+    uri::Rsync::from_string("rsync://rv.rpki.test/repo/".into()).expect("uri")
+}
+
+/// The CA certificate naming `notify` as its rpkiNotify, issued once per process (parent only: the child reads
+/// the bytes from `<dir>/ta.cer` so that it does not have to load the key pool).
+fn ca_cert_bytes(notify: &uri::Https) -> Bytes {
+    static CACHE: std::sync::Mutex<Option<(String, Bytes)>> = std::sync::Mutex::new(None);
+    let mut c = CACHE.lock().unwrap_or_else(|e| e.into_inner());
+    if let Some((n, b)) = c.as_ref() {
+        if n == notify.as_str() {
+            return b.clone();
+        }
+    }
+    let b = ta_cert_bytes(0, &ca_repo(), Some(notify));
+    *c = Some((notify.as_str().to_string(), b.clone()));
+    b
+}
+
+fn ca_from_bytes(bytes: Bytes) -> Option<Arc<routinator::engine::CaCert>> {
+    use rpki::repository::cert::Cert;
+    use rpki::repository::tal::{TalInfo, TalUri};
+    let cert = Cert::decode(bytes).ok()?;
+    let cert = cert.validate_ta(TalInfo::from_name("rv".into()).into_arc(), false).ok()?;
+    let uri = TalUri::Rsync(ca_repo().join(b"ta.cer").ok()?);
+    routinator::engine::CaCert::root(cert, uri, 0).ok()
+}
+
+/// A collector over `<dir>/cache` reaching the HTTPS server through its proxy port.
+pub fn new_collector(dir: &Path, proxy_port: u16) -> Result<Collector, String> {
+    let config = c24_config(dir, proxy_port);
+    let mut collector = Collector::new(&config).map_err(|_| "collector_new".to_string())?;
+    collector.ignite().map_err(|_| "collector_ignite".to_string())?;
+    Ok(collector)
+}
+
 /// One client update through routinator's collector: `Collector::start` → `Run::repository(&ca)`.
 pub fn client_update(dir: &Path, proxy_port: u16, notify: &uri::Https) -> UpdateOut {
-    let infra = |what: &str| UpdateOut { result: format!("infra:{}", what), loads: BTreeMap::new() };
-    let config = c24_config(dir, proxy_port);
-    let mut collector = match Collector::new(&config) {
-        Ok(c) => c,
-        Err(_) => return infra("collector_new"),
-    };
-    if collector.ignite().is_err() {
-        return infra("collector_ignite");
+    match new_collector(dir, proxy_port) {
+        Ok(c) => client_update_with(&c, ca_cert_bytes(notify)),
+        Err(e) => UpdateOut { result: format!("infra:{}", e), loads: BTreeMap::new() },
     }
-    let ca = ta_ca_cert(0, &uri::Rsync::from_string("rsync://rv.rpki.test/repo/".into()).expect("uri"), Some(notify));
+}
+
+/// One client update with an existing collector (a long-running routinator keeps its collector across runs; the
+/// collector holds no per-repository state, so this equals a restart as far as the local copy is concerned).
+pub fn client_update_with(collector: &Collector, ca_bytes: Bytes) -> UpdateOut {
+    let Some(ca) = ca_from_bytes(ca_bytes) else {
+        return UpdateOut { result: "infra:ca_cert".into(), loads: BTreeMap::new() };
+    };
     let run = collector.start();
     let res = run.repository(&ca);
     let mut loads = BTreeMap::new();
@@ -367,7 +405,15 @@ pub fn child_rrdp_update(args: &[String]) -> i32 {
         eprintln!("bad port");
         return 2;
     };
-    let out = client_update(&dir, port, &notify);
+    let _ = notify;
+    let Ok(ca_bytes) = std::fs::read(dir.join("ta.cer")) else {
+        eprintln!("no ta.cer in {}", dir.display());
+        return 2;
+    };
+    let out = match new_collector(&dir, port) {
+        Ok(c) => client_update_with(&c, Bytes::from(ca_bytes)),
+        Err(e) => UpdateOut { result: format!("infra:{}", e), loads: BTreeMap::new() },
+    };
     println!("{}", serde_json::to_string(&out).expect("json"));
     if out.result.starts_with("infra:") {
         2
@@ -515,6 +561,9 @@ struct Victim {
 fn run_victim(dir: &Path, port: u16, notify: &uri::Https, k: u32) -> Result<Victim, Verdict> {
     let trace = dir.join("kill-trace");
     let _ = std::fs::remove_file(&trace);
+    if std::fs::write(dir.join("ta.cer"), ca_cert_bytes(notify)).is_err() {
+        return Err(Verdict::Dropped("ta_cer_write_failed".into()));
+    }
     let mut cmd = Command::new(rvchild_exe());
     cmd.arg("rrdp-update").arg(dir).arg(notify.as_str()).arg(port.to_string());
     cmd.env("ROUTINATOR_VERIF_KILL_TRACE", &trace);
@@ -547,6 +596,72 @@ fn run_victim(dir: &Path, port: u16, notify: &uri::Https, k: u32) -> Result<Vict
     }
 }
 
+/// Which storage operation encloses kill point `k` (1-based) of a trace: the `Storage::write` window it lies in,
+/// classified by its number of partial writes (1 = index entry / next pointer, 5 = header of a freed block,
+/// 8-9 = a whole object: 5 header fields, name, meta, data, padding), or a point outside any window.
+fn op_class(labels: &[String], k: u32) -> String {
+    let i = k as usize - 1;
+    if i >= labels.len() {
+        return "unknown".into();
+    }
+    let l = labels[i].as_str();
+    if !l.starts_with("archive.storage.write") {
+        return l.to_string();
+    }
+    let begin = if l == "archive.storage.write.begin" {
+        Some(i)
+    } else {
+        let mut found = None;
+        for j in (0..i).rev() {
+            if labels[j] == "archive.storage.write.begin" {
+                found = Some(j);
+                break;
+            }
+            if labels[j] == "archive.storage.write.end" {
+                break;
+            }
+        }
+        found
+    };
+    let Some(b) = begin else {
+        return if l == "archive.storage.write.chunk" { "snapshot-temp-archive-write".into() } else { "unknown".into() };
+    };
+    let mut e = b + 1;
+    let mut chunks = 0;
+    while e < labels.len() && labels[e] != "archive.storage.write.end" {
+        if labels[e] == "archive.storage.write.chunk" {
+            chunks += 1;
+        }
+        e += 1;
+    }
+    let what = match chunks {
+        1 => "index-entry-or-next-pointer",
+        5 => "freed-block-header",
+        8 | 9 => "whole-object",
+        _ => "other",
+    };
+    let pos = match l {
+        "archive.storage.write.begin" => "begin".to_string(),
+        "archive.storage.write.before_finish" => "all-written".to_string(),
+        "archive.storage.write.end" => "end".to_string(),
+        _ => {
+            let nth = labels[b..=i].iter().filter(|x| *x == "archive.storage.write.chunk").count();
+            if chunks >= 8 {
+                match nth {
+                    1..=5 => "in-header".to_string(),
+                    6 => "before-name".to_string(),
+                    7 => "before-meta".to_string(),
+                    8 => "before-data".to_string(),
+                    _ => "before-padding".to_string(),
+                }
+            } else {
+                format!("before-write-{}", nth)
+            }
+        }
+    };
+    format!("{}:{}", what, pos)
+}
+
 fn fail_key(what: &str, sc: &Scenario, label: &str, follow: &[Follow]) -> String {
     format!("C24/{}/kind={}/kill={}/follow={}", what, sc.kind.name(), label, follow_names(follow))
 }
@@ -562,7 +677,8 @@ pub fn build_template(sc: &Scenario) -> Result<Template, Verdict> {
     let apath = archive_path(&config, &notify);
     // v0 by snapshot
     install(&srv, &server, sc.etag);
-    let out = client_update(dir.path(), srv.port(), &notify);
+    let coll = new_collector(dir.path(), srv.port()).map_err(|e| Verdict::Dropped(format!("infra:{}", e)))?;
+    let out = client_update_with(&coll, ca_cert_bytes(&notify));
     if out.result.starts_with("infra:") {
         return Err(Verdict::Dropped(out.result));
     }
@@ -576,8 +692,9 @@ pub fn build_template(sc: &Scenario) -> Result<Template, Verdict> {
     to_v1(&mut server, sc);
     install(&srv, &server, sc.etag);
     let _ = srv.take_log();
-    let out = client_update(dir.path(), srv.port(), &notify);
+    let out = client_update_with(&coll, ca_cert_bytes(&notify));
     let log = srv.take_log();
+    drop(coll);
     if out.result != "updated" {
         return Err(Verdict::Dropped(format!("prestate_v1_not_updated:{}", out.result)));
     }
@@ -641,6 +758,9 @@ fn run_case_inner(case: &Case, tpl: &Template, info: &mut CaseInfo, second_trace
         }
     }
     info.class(format!("kill:{}", label));
+    if case.k > 0 && case.k2 == 0 {
+        info.class(format!("op:{}", op_class(&tpl.labels, case.k)));
+    }
     let victim_deltas = vlog.iter().filter(|r| r.path.ends_with("/delta.xml") && r.status == 200).count();
 
     // --- the copy the crash left behind (classification only)
@@ -718,6 +838,8 @@ fn run_case_inner(case: &Case, tpl: &Template, info: &mut CaseInfo, second_trace
 
     // --- the honest server continues
     let mut recovered: Option<usize> = None;
+    // one collector for all follow-up updates, created after the crash (it holds no per-repository state)
+    let mut coll: Option<Collector> = None;
     for (i, step) in case.follow.iter().enumerate() {
         let done = &case.follow[..=i];
         advance(&mut server, &step.adv);
@@ -781,7 +903,13 @@ fn run_case_inner(case: &Case, tpl: &Template, info: &mut CaseInfo, second_trace
             info.class("follow-fault-without-needed-delta");
         }
         let _ = srv.take_log();
-        let out = client_update(dir.path(), srv.port(), &notify);
+        if coll.is_none() {
+            match new_collector(dir.path(), srv.port()) {
+                Ok(c) => coll = Some(c),
+                Err(e) => return Verdict::Dropped(format!("infra:{}", e)),
+            }
+        }
+        let out = client_update_with(coll.as_ref().expect("collector"), ca_cert_bytes(&notify));
         let log = srv.take_log();
         if out.result.starts_with("infra:") {
             return Verdict::Dropped(out.result);
